@@ -120,6 +120,8 @@ type Node struct {
 	// rebuilt whenever the services are rewired (restart).
 	UseAPI bool
 	API    *HTTPOp
+	// CLI, when set, is the dc4bc_cli tool chain in front of API (see CLIOp).
+	CLI *CLIOp
 }
 
 // NodeOpts configures wiring of one hot node.
@@ -181,6 +183,9 @@ func (n *Node) wireServices() error {
 			return fmt.Errorf("REST API: %w", err)
 		}
 		n.API.Calls = calls
+		if n.CLI != nil {
+			n.CLI.Rebind(n)
+		}
 	}
 	return nil
 }
